@@ -501,5 +501,6 @@ func init() {
 		Caps:         map[string]int{"ops_per_run": 60, "trees": 3, "live_iterators": 4},
 		QuickRuns:    400000,
 		ThoroughRuns: 6000000,
+		StallS:       20,
 	})
 }
